@@ -11,6 +11,7 @@
 
 size_t g_k;      /* ghost byte index (never assigned) */
 size_t g_i;      /* ghost element index (never assigned) */
+size_t g_j, g_m; /* further ghost element indices (never assigned): pairwise facts, lookup witness */
 
 /* =========================================================== memcpy with a non-constant length
  * g_k is the absolute byte index inside the DESTINATION OBJECT (buffers are whole objects, offset 0). */
@@ -182,6 +183,9 @@ void TAG##_push_back(struct TAG *v, T x)                                        
 __CPROVER_requires(__CPROVER_rw_ok(v, sizeof(*v)) && v->n < VEC_MAX)                                        \
 __CPROVER_ensures(v->n == __CPROVER_old(v->n) + 1)                                                          \
 __CPROVER_ensures(__CPROVER_is_fresh(v->d, v->n * sizeof(T)))                                               \
+__CPROVER_ensures((PRIV_ON && g_i < __CPROVER_old(v->n)) ==> VEC_ELEM_EQ_##TAG(v->d[g_i], (__CPROVER_old(v->d))[g_i]))   /* existing elements moved, not changed */ \
+__CPROVER_ensures((PRIV_ON && g_j < __CPROVER_old(v->n)) ==> VEC_ELEM_EQ_##TAG(v->d[g_j], (__CPROVER_old(v->d))[g_j]))   /* ... at the second ghost index too */ \
+__CPROVER_ensures(PRIV_ON ==> VEC_ELEM_EQ_##TAG(v->d[v->n - 1], x))                                        /* the new last element is x */ \
 __CPROVER_assigns(v->d, v->n)                                                                               \
 {                                                                                                           \
     T *nd = (T *)malloc((v->n + 1) * sizeof(T));                                                            \
